@@ -452,6 +452,67 @@ def drv_forms(c, ctx, col):
     col.sample({"formula": s, "forms": sorted(forms)})
 
 
+# ---------------------------------------------------------------------------
+# left-hand sides that are more than a bare name ---------------------------
+
+LHS_SHAPES = [["c"], ["(", "c", ")"], ["(", "c", "+", "b", ")"], ["(", "(", "c", ")", ")"], ["c", "|", "b"], ["(", "c", ")", "|", "b"],
+              ["c", "|", "(", "b", ")"], ["(", "c", ")", "|", "(", "b", ")"], ["c", "+", "(", "b", ")"], ["(", "c", ")", ":", "b"]]
+RHS_TAILS = [[], ["|", "a"], ["|", "(", "a", ")"]]
+
+
+def drv_lhs(c, ctx, col):
+    """'<lhs> ~ <tree> [| a]' with grouped / multi-part left-hand sides, under every flag subset and available-variable list"""
+    lhs = c.pick(LHS_SHAPES)
+    tree = gen_tree(c, c.upto(ctx["k"]), ctx["leaves"], ["2"])
+    tail = c.pick(RHS_TAILS)
+    toks = lhs + ["~"] + render(tree, "min") + tail
+    icpt, flags, avail = configs(c, toks)
+    compare(col, toks, " ".join(toks), icpt, flags, avail, "lhs")
+    col.sample({"formula": " ".join(toks), "include_intercept": icpt, "flags": list(flags), "available": avail})
+
+
+# ---------------------------------------------------------------------------
+# one parser object re-configured between parses ----------------------------
+
+RECONF_FORMULAS = ["a + b", "y ~ a + b", "a | b", "y ~ a | b", "y | z ~ a", "~ a"]
+
+
+def drv_reconfigure(c, ctx, col):
+    """every ordered pair of feature-flag subsets on ONE parser object: configure F1, parse (so that operator tables are built), switch to F2
+    through set_feature_flags / a fresh assignment, parse again; the second outcome must be that of a fresh parser configured with F2"""
+    from formulaic.parser import DefaultFormulaParser
+    f1, f2 = c.pick(FLAG_SETS), c.pick(FLAG_SETS)
+    warm, probe = c.pick(RECONF_FORMULAS), c.pick(RECONF_FORMULAS)
+    icpt = not c.flag()
+    how = c.pick(["set_feature_flags", "set_feature_flags-twice"])
+    parser = DefaultFormulaParser(include_intercept=icpt, feature_flags=set(f1))
+
+    def run(p, s):
+        from formulaic.errors import FormulaParsingError
+        try:
+            return ("OK", terms_to_plain(p.get_terms(s)))
+        except FormulaParsingError as e:
+            return ("REJECT", type(e).__name__)
+        except Exception as e:  # noqa
+            return ("ESCAPE", "%s: %s" % (type(e).__name__, str(e)[:80]))
+
+    first = run(parser, warm)
+    parser.set_feature_flags(set(f2))
+    if how == "set_feature_flags-twice":
+        parser.set_feature_flags(set(f1))
+        run(parser, warm)
+        parser.set_feature_flags(set(f2))
+    got = run(parser, probe)
+    want = parse(probe, icpt, f2)
+    if f1 != f2:
+        col.interesting()
+    if got != want:
+        col.violation("reconfigure :: %s -> %s warm=%r probe=%r icpt=%s how=%s" % ("+".join(f1) or "NONE", "+".join(f2) or "NONE", warm, probe, icpt, how),
+                      {"flags_first": list(f1), "flags_then": list(f2), "warm_up_formula": warm, "warm_up_outcome": first, "formula": probe, "include_intercept": icpt,
+                       "reconfigured_parser": got, "fresh_parser": want, "how": how}, sig="reconfigured-parser-differs-from-fresh")
+    col.sample({"flags_first": list(f1), "flags_then": list(f2), "formula": probe})
+
+
 def toks_to_str(terms):
     return list(terms)
 
@@ -487,6 +548,10 @@ def subchecks(tier, seed):
         subs.append(Sub("power-all", drv_power_all, {"names": ["a", "b", "c", "d"], "kmax": 3}, shard_depth=1, bounds={"n": 4, "k": 3}))
         subs.append(Sub("forms", drv_forms, {"k": 2, "leaves": ["a", "b", "c", "1"], "powers": ["2"]}, shard_depth=3,
                         bounds={"max_binary_operators": 2}))
+        subs.append(Sub("lhs-shapes", drv_lhs, {"k": 1, "leaves": ["a", "b", ".", "1", "0"]}, shard_depth=2,
+                        bounds={"lhs_shapes": [" ".join(x) for x in LHS_SHAPES], "rhs_max_binary_operators": 1, "rhs_tails": ["", "| a", "| ( a )"]}))
+        subs.append(Sub("reconfigure", drv_reconfigure, {}, shard_depth=2,
+                        bounds={"flag_subset_pairs": 64, "formulas": RECONF_FORMULAS, "sequence": "configure F1, parse, set_feature_flags(F2), parse"}))
     else:
         subs.append(Sub("tokens", drv_tokens, {"sigma": SIGMA_T, "L": 4}, shard_depth=3,
                         bounds={"alphabet": SIGMA_T, "max_tokens": 4}))
@@ -508,4 +573,8 @@ def subchecks(tier, seed):
         subs.append(Sub("power-all", drv_power_all, {"names": ["a", "b", "c", "d", "e"], "kmax": 4}, shard_depth=1, bounds={"n": 5, "k": 4}))
         subs.append(Sub("forms", drv_forms, {"k": 3, "leaves": ["a", "b", "c", "1"], "powers": ["2"]}, shard_depth=3,
                         bounds={"max_binary_operators": 3}))
+        subs.append(Sub("lhs-shapes", drv_lhs, {"k": 2, "leaves": ["a", "b", ".", "1", "0"]}, shard_depth=2,
+                        bounds={"lhs_shapes": [" ".join(x) for x in LHS_SHAPES], "rhs_max_binary_operators": 2, "rhs_tails": ["", "| a", "| ( a )"]}))
+        subs.append(Sub("reconfigure", drv_reconfigure, {}, shard_depth=2,
+                        bounds={"flag_subset_pairs": 64, "formulas": RECONF_FORMULAS, "sequence": "configure F1, parse, set_feature_flags(F2), parse"}))
     return subs
